@@ -783,8 +783,16 @@ impl Gen {
                 }
             }
             _ => {
+                // after an evaluation forward: often a further backward (gradients accumulated over two batches)
+                if sim.train_eval_pending && self.rng.chance(1, 2) {
+                    if let Some(od) = sim.train_out_dims.clone() {
+                        let n = numel(&od);
+                        let vals = (0..n).map(|_| self.dyadic(0, 4, 4.0)).collect();
+                        return vec![Ev::Bwd { dims: od, vals }];
+                    }
+                }
                 // sometimes an evaluation forward between backward and update
-                if self.rng.chance(10, 100) {
+                if self.rng.chance(12, 100) {
                     if let Some((dims, vals)) = self.batch_for(sim) {
                         let input_slot = if self.rng.chance(30, 100) { Some(self.fresh_slot()) } else { None };
                         return vec![Ev::Fwd { dims, vals, keep_output: self.rng.chance(20, 100), twice: false, input_slot }];
